@@ -551,7 +551,11 @@ pub fn run(args: &Args) -> i32 {
         }
     }
 
+    // ---- end-to-end arm through lance::Dataset (oracle only)
+    crate::e2e::run(&mut sink, &mut rng, !args.thorough());
+
     st.finish(&mut sink);
+    sink.notes.push("e2e arm: lance::Dataset write (2.1/2.2) + scan (batch sizes) + take on list<int32>, list<list<int32>>, struct<list<int32>> vs the Arrow input".into());
     sink.notes.push("unit arm: lance_encoding::repdef public API (RepDefBuilder, CompositeRepDefUnraveler, RepDefSlicer, control words)".into());
     sink.finish();
     0
